@@ -66,7 +66,11 @@ RULE_ADDED = (
               ' a link failure. '
               ' '
               'Round 15: rounds on the SGX platform, half of them with a quiet period and the m'
-              "anager's own timers coming due 400 times sooner; more slow-sender rounds. ")
+              "anager's own timers coming due 400 times sooner; more slow-sender rounds. "
+              ' '
+              'Round 16: the manager in its own process signalled (SIGTERM) with one request un'
+              "der way and two clients queued: no command goes to the device inside another's e"
+              'xchange. ')
 RULE = RULE + " " + RULE_ADDED.strip()
 ASSUMPTIONS = [
     "schedules are those the OS produces under injected device delays; not enumerated",
@@ -752,6 +756,72 @@ def run_round(acc, spec, rnd, rng, slow=None, fault=None, late=None, slowsend=Fa
                     "apdus": sum(len(b) for b in blocks.values())})
 
 
+def signalled_with_a_queue(acc, rng):
+    """the manager in its own process (its real entry path, a device that takes 0.15 s of
+    real time over every answer); one client's state request is under way, a second client
+    has connected and sent its request, and the process is sent SIGTERM.  Whatever the
+    manager does on its way out, it does not start on the second request inside the first."""
+    import os
+    import sys
+    import signal
+    import subprocess
+    import tempfile
+    import shutil
+    from . import c03
+    sock = socket.socket()
+    sock.bind(("127.0.0.1", 0))
+    port = sock.getsockname()[1]
+    sock.close()
+    tmp = tempfile.mkdtemp(prefix="pv-c03-mgr-")
+    logp = os.path.join(tmp, "nested.log")
+    envv = dict(os.environ, PYTHONHASHSEED="0", PYTHONDONTWRITEBYTECODE="1",
+                PV_SLOW_EXCHANGES="0.15", PV_MGR_TMP=tmp, PV_APDU_LOG=logp)
+    child = subprocess.Popen([sys.executable, "-m", "pv.props.c03", "--manager-child",
+                              str(port), "0"], cwd=env.VERIF, env=envv,
+                             stdout=subprocess.DEVNULL, stderr=subprocess.DEVNULL)
+    try:
+        t0 = time.time()
+        up = False
+        while time.time() - t0 < 30 and child.poll() is None:
+            if c03._client(port, b'{"command":"version"}\n'):
+                up = True
+                break
+            time.sleep(0.1)
+        if not up:
+            acc.notes.append("signalled manager (queue) did not come up")
+            return
+        acc.count("managers_signalled_with_a_client_queued")
+        acc.evaluations += 1
+        socks = []
+        for line in (b'{"command":"blockchainState","version":5}\n',
+                     b'{"command":"signerHeartbeat","version":5,"udValue":"%s"}\n' %
+                     (b"11" * 16),
+                     b'{"command":"getPubKey","version":5,"keyId":"m/44\'/0\'/0\'/0/0"}\n'):
+            cs = socket.create_connection(("127.0.0.1", port), timeout=30)
+            cs.sendall(line)
+            socks.append(cs)
+            time.sleep(0.2 + rng.random() * 0.2)
+        child.send_signal(signal.SIGTERM)
+        try:
+            child.wait(20)
+        except subprocess.TimeoutExpired:
+            pass
+        for cs in socks:
+            try:
+                cs.close()
+            except OSError:
+                pass
+        nested = open(logp).read() if os.path.exists(logp) else ""
+        if "nested" in nested:
+            acc.violation("command-sent-to-the-device-inside-another-requests-exchange:after-SIGTERM",
+                          {"log": nested[:200]}, {"kind": "signal-queue"})
+    finally:
+        if child.poll() is None:
+            child.kill()
+        child.wait(10)
+        shutil.rmtree(tmp, ignore_errors=True)
+
+
 def _quiet(fn):
     try:
         fn()
@@ -762,6 +832,8 @@ def _quiet(fn):
 def run_shard(spec, acc):
     env.setup()
     rng = random.Random(spec["seed"])
+    if spec["seed"] % 100 in (0, 3, 9):
+        signalled_with_a_queue(acc, random.Random(spec["seed"] + 1))
     for rnd in range(spec["rounds"]):
         run_round(acc, spec, rnd, rng)
     for k, total in enumerate(spec.get("slow", [])):
@@ -817,6 +889,8 @@ def run_shard(spec, acc):
 
 def replay(case, acc):
     env.setup()
+    if case.get("kind") == "signal-queue":
+        return signalled_with_a_queue(acc, random.Random(1))
     acc.notes.append("schedules are not replayable exactly; re-running the seeded round")
     spec = {"seed": case["seed"], "rounds": case["round"] + 1, "max_clients": 16, "per_client": 4}
     run_shard(spec, acc)
